@@ -120,14 +120,17 @@ def encNftItem (n : NftItem R) : Enc R :=
 def encSaleFees (f : SaleFees) : Enc R :=
   eAddr f.marketplaceFeeAddress +++ eGrams f.marketplaceFee +++ eAddr f.royaltyAddress +++ eGrams f.royaltyAmount
 
+/-- `^X`: a reference to the cell that holds exactly the encoding `e` -/
+def eRefTo (ops : CellOps R) (e : Enc R) : Enc R :=
+  match e.bind (mkChunk ops) with
+  | some c => eRef c
+  | none => none
+
 /-- `fees_cell:^NftItemSaleFees` -/
 def encSaleData (ops : CellOps R) (s : SaleData) : Enc R :=
   eBool s.isComplete +++ eUint 32 s.createdAt +++ eAddr s.marketplace +++ eAddr s.nft +++ eAddr s.nftOwner +++
   eGrams s.fullPrice +++
-  (match (encSaleFees s.fees).bind (mkChunk ops) with
-   | some c => eRef c
-   | none => none) +++
-  eBool s.canDeployByExternal
+  eRefTo ops (encSaleFees s.fees) +++ eBool s.canDeployByExternal
 
 /-- the cell of an encoding -/
 def encCell (ops : CellOps R) (e : Enc R) : Option R := e.bind (mkChunk ops)
@@ -201,6 +204,12 @@ def decodeHashUpd (ops : CellOps R) (c : R) : Option HashUpd := decodeWhole dHas
 def decodeNftItem (ops : CellOps R) (c : R) : Option (NftItem R) := decodeWhole dNftItem (ops.view c)
 def decodeSaleFees (ops : CellOps R) (c : R) : Option SaleFees := decodeWhole dSaleFees (ops.view c)
 def decodeSaleData (ops : CellOps R) (c : R) : Option SaleData := decodeWhole (dSaleData ops) (ops.view c)
+
+/-! ### canonical form of the address fields (what a decoder can return, see `AddrWF`) -/
+
+def NftItem.WF (n : NftItem R) : Prop := AddrWF n.collection ∧ AddrWF n.owner
+def SaleFees.WF (f : SaleFees) : Prop := AddrWF f.marketplaceFeeAddress ∧ AddrWF f.royaltyAddress
+def SaleData.WF (s : SaleData) : Prop := AddrWF s.marketplace ∧ AddrWF s.nft ∧ AddrWF s.nftOwner ∧ s.fees.WF
 
 /-! ### `Message X` proper -/
 
